@@ -282,7 +282,13 @@ impl RefSetup {
                 }
             }
         }
-        let mag = lo.abs().max(hi.abs()).max_element().max(c.lmax());
+        // magnitude of the coordinates the bisector planes act on: the ACTIVE axes only (in 1D/2D the unused axes span
+        // [-0.5, 0.5] exactly and every bisector normal is orthogonal to them; counting them made the snapping tolerance
+        // 4e-16 absolute, i.e. 4e-7 of a box of width 1e-9 - found by the Qhull cross-check at thorough seed 2)
+        let mut mag = c.lmax();
+        for k in 0..d {
+            mag = mag.max(lo[k].abs()).max(hi[k].abs());
+        }
         RefSetup {
             pts,
             lo,
